@@ -107,6 +107,9 @@ func init() {
 				if mc.Sess != nil || c == 0 {
 					evs = append(evs, Ev{K: "join", C: c, X: -2})
 				}
+				if c == 0 {
+					evs = append(evs, Ev{K: "ping", C: c}) // allowed in and out of a session
+				}
 				evs = append(evs, Ev{K: "close", C: c})
 			}
 			return evs
@@ -323,6 +326,13 @@ func init() {
 				}
 				if c.Sess != nil {
 					evs = append(evs, Ev{K: "eadd", C: 3, X: 0}, Ev{K: "custom", C: 3, X: 3}, Ev{K: "close", C: 3}, Ev{K: "region", C: 3})
+					// attachments on its own newest entity: module state must follow the connection into the session it switched to
+					for i := len(c.Sess.Entities) - 1; i >= 0; i-- {
+						if e := c.Sess.Entities[i]; e.Live && e.OwnerC == 3 && e.Owner == c.PID {
+							evs = append(evs, Ev{K: "asset", C: 3, X: e.Ord, Y: 1}, Ev{K: "action", C: 3, X: e.Ord, Y: 0, Z: 1})
+							break
+						}
+					}
 				} else if len(m.Sessions) < 3 {
 					evs = append(evs, Ev{K: "join", C: 3, X: -1})
 				}
@@ -353,6 +363,9 @@ func init() {
 					continue
 				}
 				evs = append(evs, Ev{K: "region", C: c})
+				if c == 0 {
+					evs = append(evs, Ev{K: "ground", C: c, X: len(mc.Sess.Quads)}, Ev{K: "debug", C: c})
+				}
 				if c < 2 && len(mc.Sess.Quads) < 4 {
 					evs = append(evs, Ev{K: "quad", C: c, X: len(mc.Sess.Quads)})
 				}
